@@ -624,8 +624,359 @@ def judge_bad(chk, case):
     return ("broken", "model-vs-code:constructor", f"constructor: code {real}, model {model}", case)
 
 
+
+# ------------------------------------------------------------------------------------------------
+# long-lived Processor: histories of noise updates / assignments / inputs / reads
+# ------------------------------------------------------------------------------------------------
+NOISE_FIELDS = ("brightness", "indistinguishability", "g2", "g2_distinguishable", "transmittance")
+
+
+def noise_kwargs(P):
+    d = derived(P)
+    return {"brightness": float(d["beta"]), "indistinguishability": float(d["ind"]), "g2": float(d["g2"]),
+            "g2_distinguishable": d["model"] == DIST, "transmittance": float(d["eta"])}
+
+
+class HistBook:
+    """The harness' own bookkeeping of a history (independent of Lean and of the code): which NoiseModel
+    object is held, the values every object has NOW, whether the held object was updated in place and
+    not yet assigned again (`dirty`: nothing is demanded of a read in that state), whether the input
+    distribution is cached."""
+
+    def __init__(self, case):
+        self.vals = {i: P for i, P in enumerate(case["objs"])}
+        self.none_id = len(case["objs"])
+        self.vals[self.none_id] = FIXED["perfect"]
+        self.next_id = self.none_id + 1
+        k = case["init"]["noise"]
+        self.held = self.none_id if k is None else k
+        self.dirty = False
+        self.cached = False
+        self.ns = None
+        self.shapes = set()
+
+    def ok(self, st):
+        """is the step well-formed in this state?"""
+        op = st["op"]
+        if op == "set":
+            return st["id"] in self.vals and st["id"] != self.none_id and \
+                (st["via"] != "getter" or st["id"] == self.held)
+        if op == "copy":
+            return st["id"] in self.vals and st["to"] == self.next_id
+        if op == "assign":
+            return st["id"] is None or (st["id"] in self.vals and st["id"] != self.none_id)
+        return True
+
+    def apply(self, st):
+        op = st["op"]
+        if op == "set":
+            self.vals[st["id"]] = st["P"]
+            if st["id"] == self.held:
+                self.dirty = True
+                self.shapes.add("hist-inplace-getter" if st["via"] == "getter" else "hist-inplace-ref")
+            else:
+                self.shapes.add("hist-set-unheld")
+        elif op == "copy":
+            self.vals[st["to"]] = self.vals[st["id"]]
+            self.next_id += 1
+        elif op == "assign":
+            k = self.none_id if st["id"] is None else st["id"]
+            if k == self.held:
+                if self.dirty:
+                    self.shapes.add("hist-inplace-reassign")
+                    self.shapes.add("hist-inplace-reassign-cached" if self.cached else
+                                    "hist-inplace-reassign-uncached")
+                else:
+                    self.shapes.add("hist-same-object-reassign-clean")
+            elif json.dumps(self.vals[k], sort_keys=True) == json.dumps(self.vals[self.held], sort_keys=True) \
+                    and not self.dirty:
+                self.shapes.add("hist-equal-new-object")
+            else:
+                self.shapes.add("hist-other-object")
+            if st["id"] is None:
+                self.shapes.add("hist-noise-none")
+            if st.get("route") == "experiment":
+                self.shapes.add("hist-experiment-route")
+            self.held, self.dirty, self.cached = k, False, False
+        elif op == "input":
+            if self.ns is not None:
+                self.shapes.add("hist-input-change")
+            self.ns = st["ns"]
+            self.cached = True
+        elif op == "read":
+            if self.dirty:
+                self.shapes.add("hist-dirty-read-unjudged")
+            elif self.ns is not None:
+                self.shapes.add("hist-read-cached" if self.cached else "hist-read-regenerates")
+            if self.ns is not None:
+                self.cached = True
+        elif op == "source":
+            self.shapes.add("hist-read-source")
+
+    def lean_step(self, st):
+        op = st["op"]
+        if op == "set":
+            return {"op": "mutate", "id": st["id"], "P": lean_P(st["P"], noise=True)}
+        if op == "copy":
+            return {"op": "mutate", "id": st["to"], "P": lean_P(self.vals[st["id"]], noise=True)}
+        if op == "assign":
+            return {"op": "assign", "id": self.none_id if st["id"] is None else st["id"]}
+        if op == "input":
+            return {"op": "input", "ns": st["ns"]}
+        if op == "read":
+            return {"op": "read"}
+        if op == "source":
+            return {"op": "source", "ns": st["ns"], "thr": core.rat(F(st["thr"]) if st.get("thr") else 0)}
+        return {"op": "other"}
+
+
+def hist_wellformed(case):
+    try:
+        b = HistBook(case)
+        for st in case["steps"]:
+            if st["op"] in ("input", "source") and len(st["ns"]) != case["m"]:
+                return False
+            if not b.ok(st):
+                return False
+            b.apply(st)
+        return True
+    except Exception:  # noqa
+        return False
+
+
+def hist_shapes(case):
+    b = HistBook(case)
+    for st in case["steps"]:
+        b.apply(st)
+    return b.shapes
+
+
+def fresh_processor_entries(P, ns):
+    """control: a brand-new Processor with brand-new NoiseModel for the same parameters and input"""
+    import perceval as pcvl
+    from perceval.utils import BasicState
+    proc = pcvl.Processor("SLOS", len(ns), noise=pcvl.NoiseModel(**noise_kwargs(P)))
+    proc.with_input(BasicState(ns))
+    return svd_entries(proc.source_distribution)
+
+
+def judge_hist(chk, case):
+    """A long-lived Processor driven through a history; every read made while the held NoiseModel is not
+    in the 'updated in place, not yet assigned again' state is judged: against the Lean state machine
+    (`Model/C06Proc.lean`) and, directly, against the property statement for the CURRENT parameters of the
+    held noise object and the CURRENT input."""
+    import perceval as pcvl
+    from perceval.utils import BasicState
+    book = HistBook(case)
+    m = case["m"]
+    lean_steps = []
+    b0 = HistBook(case)
+    for st in case["steps"]:
+        lean_steps.append(b0.lean_step(st))
+        b0.apply(st)
+    lean_objs = [lean_P(P, noise=True) for P in case["objs"]] + [lean_P(FIXED["perfect"], noise=True)]
+    rep = chk.lean.ask({"op": "hist", "objs": lean_objs, "init": book.held, "steps": lean_steps})
+    if "err" in rep:
+        return ("broken", "model-vs-code:hist", f"the model rejects this history: {rep['err']}", case)
+    outs = rep["outs"]
+    where = "Processor construction"
+    fail = None
+    try:
+        objs = {i: pcvl.NoiseModel(**noise_kwargs(P)) for i, P in enumerate(case["objs"])}
+        k = case["init"]["noise"]
+        nm0 = None if k is None else objs[k]
+        if case["init"].get("route") == "experiment":
+            proc = pcvl.Processor("SLOS", pcvl.Experiment(m, noise=nm0))
+        else:
+            proc = pcvl.Processor("SLOS", m, noise=nm0)
+        for i, st in enumerate(case["steps"]):
+            op = st["op"]
+            where = f"step {i} ({op})"
+            svd, judged, ns_req, thr = None, False, None, None
+            if op == "set":
+                if st["via"] == "getter":
+                    objs[st["id"]] = proc.noise          # nm = proc.noise; nm.set_value(...)
+                nm = objs[st["id"]]
+                old, new = noise_kwargs(book.vals[st["id"]]), noise_kwargs(st["P"])
+                for fld in NOISE_FIELDS:
+                    if st.get("fields") != "changed" or old[fld] != new[fld]:
+                        nm.set_value(fld, new[fld])
+            elif op == "copy":
+                objs[st["to"]] = pcvl.NoiseModel(**noise_kwargs(book.vals[st["id"]]))
+            elif op == "assign":
+                nm = None if st["id"] is None else objs[st["id"]]
+                if st.get("route") == "experiment":
+                    proc.experiment.noise = nm
+                else:
+                    proc.noise = nm
+            elif op == "input":
+                proc.with_input(BasicState(st["ns"]))
+            elif op == "filter":
+                proc.min_detected_photons_filter(st["k"])
+            elif op == "read":
+                svd = proc.source_distribution
+                judged, ns_req = not book.dirty, book.ns
+            elif op == "source":
+                thr = thr_float(st)
+                svd = proc.source.generate_distribution(BasicState(st["ns"])) if thr is None else \
+                    proc.source.generate_distribution(BasicState(st["ns"]), thr)
+                judged, ns_req = not book.dirty, st["ns"]
+            else:
+                raise ValueError("unknown step " + op)
+            book.apply(st)
+            if outs[i]["dirty"] != book.dirty:
+                raise core.LeanError(f"harness bookkeeping and model disagree on the ghost flag at step {i}")
+            if not judged:
+                continue
+            Pcur = book.vals[book.held]
+            if ns_req is None:
+                if svd is not None:
+                    return ("violation", "distribution-without-input",
+                            f"{where}: source_distribution is not None although no input was given", case)
+                continue
+            if svd is None:
+                return ("violation", "no-distribution",
+                        f"{where}: source_distribution is None although an input was given", case)
+            entries = svd_entries(svd)
+            if thr is None or thr <= 1e-16:
+                orc = oracle_distribution(Pcur, ns_req, entries)
+                if orc is not None:
+                    sg, txt = orc
+                    try:
+                        fresh_ok = oracle_distribution(Pcur, ns_req, fresh_processor_entries(Pcur, ns_req)) is None
+                    except Exception:  # noqa
+                        fresh_ok = False
+                    what = ("Processor.source_distribution" if op == "read" else
+                            "Processor.source.generate_distribution")
+                    if fresh_ok:
+                        sg = "history-dependent-source-distribution"
+                        txt = (f"after the history, at {where}, {what} for noise {noise_kwargs(Pcur)} and input "
+                               f"{ns_req} does not have the statistics these parameters promise ({txt}), whereas a "
+                               f"new Processor with the same parameters and input does")
+                    else:
+                        txt = f"{where}: {what}: {txt}"
+                    return ("violation", sg, txt, case)
+            if fail is None and "dist" not in outs[i]:
+                fail = f"{where}: the model returns no distribution"
+            elif fail is None and not outs[i]["near"]:
+                worst = cmp_dicts(to_canon_dict(entries), to_canon_dict(lean_entries(outs[i]["dist"]), exact=True))
+                if worst is not None:
+                    fail = f"{where}: state {worst[0]}: code {worst[1]!r}, model {worst[2]!r}"
+            elif fail is None:
+                chk.branch("near-threshold-skipped")
+    except core.LeanError:
+        raise
+    except Exception as e:  # noqa
+        return ("violation", "raises-" + type(e).__name__,
+                f"{where} of a legal history raised {type(e).__name__}: {str(e)[:200]}", case)
+    if fail is not None:
+        return ("broken", "model-vs-code:hist", fail, case)
+    return None
+
+
+def hist_simpler(case):
+    steps = case["steps"]
+    for i in range(len(steps)):
+        cand = {**case, "steps": steps[:i] + steps[i + 1:]}
+        if hist_wellformed(cand):
+            yield cand
+    if case["init"].get("route") == "experiment":
+        yield {**case, "init": {**case["init"], "route": "ctor"}}
+    for i, st in enumerate(steps):
+        for key, val in (("route", "proc"), ("via", "ref"), ("fields", "all")):
+            if key in st and st[key] != val:
+                cand = {**case, "steps": steps[:i] + [{**st, key: val}] + steps[i + 1:]}
+                if hist_wellformed(cand):
+                    yield cand
+    if case["m"] > 1:       # drop the last mode everywhere
+        cand = copy.deepcopy(case)
+        cand["m"] -= 1
+        for st in cand["steps"]:
+            if "ns" in st:
+                st["ns"] = st["ns"][:-1]
+        yield cand
+
+
+def gen_hist(rng, pick_params):
+    """random history; the macro moves make sure the shapes that matter occur: an in-place update of the
+    held object (through the reference the caller kept, or through `processor.noise`) followed by the
+    re-assignment of the very same object, with and without a cached distribution in between."""
+    m = rng.choice([1, 2, 2, 3])
+
+    def rand_ns():
+        ns = [rng.randint(0, 2) for _ in range(m)]
+        while sum(ns) > 3:
+            ns[rng.randrange(m)] = 0
+        if sum(ns) == 0 and rng.random() < 0.8:
+            ns[rng.randrange(m)] = 1
+        return ns
+
+    nobj = rng.randint(1, 3)
+    case = {"kind": "hist", "m": m, "objs": [pick_params() for _ in range(nobj)],
+            "init": {"noise": rng.choice([0, 0, 0, None]), "route": rng.choice(["ctor", "ctor", "experiment"])},
+            "steps": []}
+    book = HistBook(case)
+
+    def emit(st):
+        assert book.ok(st), st
+        case["steps"].append(st)
+        book.apply(st)
+
+    def route():
+        return rng.choice(["proc", "proc", "experiment"])
+
+    if rng.random() < 0.85:
+        emit({"op": "input", "ns": rand_ns()})
+        if rng.random() < 0.5:
+            emit({"op": "read"})
+    for _ in range(rng.randint(1, 4)):
+        move = rng.choice(["sweep", "sweep", "sweep", "other", "equal", "same", "none", "input", "source",
+                           "filter", "read"])
+        if move == "sweep":
+            if book.held == book.none_id:
+                emit({"op": "assign", "id": rng.randrange(nobj), "route": route()})
+                if rng.random() < 0.5:
+                    emit({"op": "read"})
+            emit({"op": "set", "id": book.held, "P": pick_params(), "via": rng.choice(["ref", "getter"]),
+                  "fields": rng.choice(["all", "changed"])})
+            if rng.random() < 0.25:
+                emit({"op": "read"})          # not judged; fills the cache with the old distribution
+            emit({"op": "assign", "id": book.held, "route": route()})
+            if rng.random() < 0.8:
+                emit({"op": "read"})
+        elif move == "other":
+            k = rng.randrange(nobj)
+            if rng.random() < 0.6:
+                emit({"op": "set", "id": k, "P": pick_params(), "via": "ref", "fields": rng.choice(["all", "changed"])})
+            emit({"op": "assign", "id": k, "route": route()})
+        elif move == "equal" and not book.dirty and book.held != book.none_id:
+            to = book.next_id
+            emit({"op": "copy", "id": book.held, "to": to})
+            emit({"op": "assign", "id": to, "route": route()})
+        elif move == "same" and book.held != book.none_id:
+            emit({"op": "assign", "id": book.held, "route": route()})
+        elif move == "none":
+            emit({"op": "assign", "id": None, "route": route()})
+        elif move == "input":
+            emit({"op": "input", "ns": rand_ns()})
+        elif move == "source":
+            emit({"op": "source", "ns": rand_ns(), "thr": rng.choice([None, None, "1/1000"])})
+        elif move == "filter":
+            emit({"op": "filter", "k": rng.randint(0, 2)})
+        else:
+            emit({"op": "read"})
+    if book.dirty:
+        emit({"op": "assign", "id": book.held, "route": route()})
+    if book.ns is None:
+        emit({"op": "input", "ns": rand_ns()})
+    emit({"op": "read"})
+    if rng.random() < 0.5:
+        emit({"op": "source", "ns": book.ns, "thr": None})
+    return case
+
+
 JUDGES = {"gen": judge_gen, "proc": judge_gen, "pd": judge_pd, "table": judge_table, "samples": judge_samples,
-          "bad": judge_bad}
+          "bad": judge_bad, "hist": judge_hist}
 
 
 def judge(chk, case):
@@ -637,6 +988,9 @@ def judge(chk, case):
 # ------------------------------------------------------------------------------------------------
 def simpler(case):
     c = case
+    if c["kind"] == "hist":
+        yield from hist_simpler(c)
+        return
     if "ns" in c:
         ns = c["ns"]
         for i in range(len(ns)):
